@@ -34,7 +34,7 @@ func init() {
 	props["C06"] = &propCfg{Engine: "E1", Level: "exploration", QuickRuns: 1500, ThoroughMax: 4_000_000, RealStub: e1RealStub,
 		Rule:        "one run = a two-run history over a real scratch directory: a generated failing program with hostile test names (unicode, separators, reserved device names) and hostile logged output (arbitrary bytes, CR/NUL/invalid UTF-8, lines that look like data, empty, 64KiB-1MiB lines), empty minimized bitstreams, stale fail files of another program present, clock cuts during run 1; then a restart (new bubble; same second / +1s / +1 year later) without any flag, or with -rapid.failfile=<moved file>; non-trivial = run 1 failed; distinct by hash(program, name, seed, checks, clock)",
 		SimTimeNote: "sum of fake-clock advance inside synctest bubbles"}
-	props["C04"] = &propCfg{Engine: "E1", Level: "exploration", QuickRuns: 1600, ThoroughMax: 4_000_000, RealStub: e1RealStub,
+	props["C04"] = &propCfg{Engine: "E1", ColdStart: true, Level: "exploration", QuickRuns: 1600, ThoroughMax: 4_000_000, RealStub: e1RealStub,
 		Rule:        "one run = a history: 0-3 unrelated warm-up checks, then a generated failing program (rejection-heavy generators, state machines) run twice with the same seed in different bubbles, Example(seed) twice, restart over the same directory (fail-file replay), the unpruned recording through MakeFuzz, and (sampled) the same tape in a fresh OS process (cold caches); non-trivial = the main check failed (so record/prune/replay happened); distinct by hash(program text, seed, checks, shrinktime)",
 		SimTimeNote: "sum of fake-clock advance inside synctest bubbles"}
 	props["C02"] = &propCfg{Engine: "E1", Level: "exploration", QuickRuns: 3112, ThoroughMax: 4_000_000, RealStub: e1RealStub,
